@@ -1,5 +1,6 @@
 import GormModel.Drv.Util
 import GormModel.Model.Tx
+import GormModel.Model.TxForms
 import GormModel.Gen.BeginFacts
 open Lean
 namespace Gorm.Drv
@@ -90,6 +91,51 @@ def parseCfg (j : Json) : Option Cfg := do
   -- `beginGuard` is not an input: it follows the code under test (regenerated fact, extract/gen_c04.go)
   some { prep := ← g "prep", dis := ← g "dis", skip := ← g "skip", beginGuard := Gen.beginChecksError }
 
+/-- one statement of a write form: ["W", [ids: +k = insert k, -k = delete k (as [sign, k] pairs)], file, fn, method] / ["Q", file, fn, method];
+    the call site is looked up in the REGENERATED table (unknown site = the input is rejected) -/
+def parseFStmt (j : Json) : Option FStmt := do
+  let a ← jArr? j
+  match (← jStr? (arg a 0)) with
+  | "W" =>
+    let ws ← (← jArr? (arg a 1)).toList.mapM (fun p => do
+      let pa ← jArr? p
+      let k ← jNat? (arg pa 1)
+      match (← jNat? (arg pa 0)) with
+      | 0 => some Write.nop | 1 => some (Write.ins k) | 2 => some (Write.del k) | _ => none)
+    let i ← siteIndex (← jStr? (arg a 2)) (← jStr? (arg a 3)) (← jStr? (arg a 4))
+    some (.exec ws i)
+  | "Q" =>
+    let i ← siteIndex (← jStr? (arg a 1)) (← jStr? (arg a 2)) (← jStr? (arg a 3))
+    some (.query i)
+  | _ => none
+
+def parseFormOp (j : Json) : Option FormOp := do
+  let a ← jArr? j
+  some { stmts := ← (← jArr? (arg a 0)).toList.mapM parseFStmt, must := ← jBool? (arg a 1) }
+
+def parseOut (j : Json) : Option Out := do
+  match (← jNat? j) with
+  | 0 => some Out.retNil | 1 => some Out.retErr | 2 => some Out.panic | _ => none
+
+/-- ["ops", [formop…]] / ["nested", [formop…], out, tag] / ["sp", n] / ["rb", n] -/
+def parseFItem (j : Json) : Option FItem := do
+  let a ← jArr? j
+  match (← jStr? (arg a 0)) with
+  | "ops" => some (.ops (← (← jArr? (arg a 1)).toList.mapM parseFormOp))
+  | "nested" => some (.nested (← (← jArr? (arg a 1)).toList.mapM parseFormOp) (← parseOut (arg a 2)) (← jNat? (arg a 3)))
+  | "sp" => some (.sp (← jNat? (arg a 1)))
+  | "rb" => some (.rb (← jNat? (arg a 1)))
+  | _ => none
+
+/-- ["blk", out, tag] / ["man", fin] -/
+def parseFOuter (j : Json) : Option FOuter := do
+  let a ← jArr? j
+  match (← jStr? (arg a 0)) with
+  | "blk" => some (.blk (← parseOut (arg a 1)) (← jNat? (arg a 2)))
+  | "man" => match (← jNat? (arg a 1)) with
+    | 0 => some (.man .commit) | 1 => some (.man .rollback) | _ => none
+  | _ => none
+
 end HC04
 open HC04 in
 /-- ["tx.run", cfg, [fault call numbers], [initial ids], body, allowRb] -> observation of the model run
@@ -124,6 +170,20 @@ def handleC04 (op : String) (args : Array Json) : Option Json := do
     let cp ← parsePool (arg args 5)
     let s := writeSt skip errNil beginOk { stmtPool := sp, cfgPool := cp }
     some (Json.mkObj [("pool", poolJ s.stmtPool), ("started", Json.bool s.started)])
+  | "tx.fprog" =>
+    -- ["tx.fprog", cfg, mask, initial ids, outer, items] -> the write-form program of Model/TxForms.lean with the pool selector
+    -- `siteSel` OF THE TREE BEING VERIFIED (regenerated call-site table)
+    let cfg ← parseCfg (arg args 1)
+    let mask ← (← jArr? (arg args 2)).toList.mapM jNat?
+    let init ← (← jArr? (arg args 3)).toList.mapM jNat?
+    let outer ← parseFOuter (arg args 4)
+    let items ← (← jArr? (arg args 5)).toList.mapM parseFItem
+    let o : Oracle := fun k => mask.contains k
+    let (db, r) := runFProg siteSel cfg o outer items { committed := init, rbFaultable := false }
+    some (Json.mkObj [
+      ("store", natListJ db.committed), ("res", resJ r), ("open", natJ db.open),
+      ("trace", Json.arr (db.trace.reverse.map tokJ).toArray),
+      ("txof", natListJ db.txof.reverse)])
   | "tx.spec" =>
     let cfg ← parseCfg (arg args 1)
     let mask ← (← jArr? (arg args 2)).toList.mapM jNat?
